@@ -389,9 +389,32 @@ def table_sweep_cases():
 
 def sequence_kinds(case):
     """what a sequence exercises (for the evidence histogram)"""
-    by = {sp["entity_id"]: sp for sp in case["sps"]}
     kinds = set()
     steps = case["steps"]
+    if any(st["op"] == "reload" for st in steps):
+        for i, st in enumerate(steps):
+            if st["op"] != "reload":
+                continue
+            old = {sp["entity_id"]: sp for sp in step_case(case, i)["sps"]}
+            new = {sp["entity_id"]: sp for sp in st["sps"]}
+            later = {s2["sp"] for s2 in steps[i + 1:] if s2["op"] != "reload"}
+            for eid in later:
+                o, n_ = old.get(eid), new.get(eid)
+                if o is None and n_ is not None:
+                    kinds.add("reload:requester-added")
+                elif o is not None and n_ is None:
+                    kinds.add("reload:requester-removed")
+                elif o is not None:
+                    for fld, name in (("cats", "categories"), ("ras", "requested-attributes"), ("ra", "registration-authority"),
+                                      ("subj", "subject-id-requirement")):
+                        if o.get(fld) != n_.get(fld):
+                            kinds.add("reload:" + name + "-changed")
+                    if o == n_:
+                        kinds.add("reload:requester-unchanged")
+            if set(old) != set(new):
+                kinds.add("reload:other-requester-added-or-removed")
+        return sorted(kinds)
+    by = {sp["entity_id"]: sp for sp in case["sps"]}
     for i in range(len(steps)):
         for j in range(i + 1, len(steps)):
             a, b = steps[i], steps[j]
@@ -546,12 +569,196 @@ def gen_sequences(rng, n_scen):
                 yield dict(base, steps=perm)
 
 
+SP3 = "https://sp3.c10.example/sp"
+
+
+def _req_ras(attrs, required=True):
+    return [{"name": OID.get(a, "urn:x-c10:unknown:" + a), "name_format": URI, "friendly_name": a,
+             "values": [], "required": required} for a in attrs]
+
+
+def history_sweep_cases():
+    """deterministic histories on one Server with its CONFIGURED policy: issue, Server.reload_metadata with the
+    requester's metadata changed, issue again (create_authn_response / create_attribute_response); each release is
+    judged against the metadata in force at that step"""
+    tables = _bundled()
+    every = []
+    for _, entries in tables:
+        for e in entries:
+            for a in e[2]:
+                if a not in every:
+                    every.append(a)
+    identity = [[a, {"l": ["v-" + a]}] for a in every] + [["x-unlisted", {"l": ["v"]}]]
+    sec = {"ar": None, "ar_key": False, "fomr": False, "ec": [], "ec_key": True, "lifetime": True, "nonempty": True}
+
+    def sp(eid=SP1, cats=(), ras=(), ra=None, subj=None):
+        return {"entity_id": eid, "ra": ra, "cats": list(cats), "subj": subj, "ras": list(ras), "split": False}
+
+    def hist(policy, before, after, ops, ident=identity, who=SP1):
+        for op in ops:
+            st = {"op": op, "sp": who, "identity": ident}
+            if op == "authn_response":
+                st["best_effort"] = None
+            yield {"op": "sequence", "policy": policy, "sps": before, "custom": {},
+                   "steps": [dict(st), {"op": "reload", "sps": after}, dict(st)]}
+
+    # entity category withdrawn / granted, per bundled RELEASE item
+    for name, entries in tables:
+        for kind, keys, attrs, o, n in entries:
+            if kind == 0:
+                continue
+            ras = _req_ras(attrs[:2])
+            pol = [["default", dict(sec, ec=[name])]]
+            for c in hist(pol, [sp(cats=keys, ras=ras)], [sp(cats=[], ras=ras)], ("authn_response",)):
+                yield c
+            for c in hist(pol, [sp(cats=[], ras=ras)], [sp(cats=keys, ras=ras)], ("attribute_response",)):
+                yield c
+    ident = [["mail", {"l": ["a@b.c"]}], ["sn", {"l": ["Jeter"]}], ["givenName", {"s": "Derek"}],
+             ["pairwise-id", {"l": ["p1@idp.example"]}], ["title", {"l": ["x"]}]]
+    ops = ("authn_response", "attribute_response", "restrict")
+    nofail = [["default", dict(sec, ec=[], ec_key=False)]]
+    # RequestedAttributes narrowed / widened / required flag flipped
+    wide, narrow = _req_ras(["mail", "sn", "givenName"]), _req_ras(["mail"])
+    for a, b in ((wide, narrow), (narrow, wide), (_req_ras(["mail", "sn"]), _req_ras(["mail"]) + _req_ras(["sn"], False))):
+        for c in hist(nofail, [sp(ras=a)], [sp(ras=b)], ops, ident):
+            yield c
+    # ONLY_REQUIRED category with changed requirements
+    coco = ["http://www.geant.net/uri/dataprotection-code-of-conduct/v1"]
+    for c in hist([["default", dict(sec, ec=["swamid"])]], [sp(cats=coco, ras=_req_ras(["mail", "sn"]))],
+                  [sp(cats=coco, ras=_req_ras(["givenName"]))], ops, ident):
+        yield c
+    # registration authority changed / dropped: sections of both authorities and a default
+    pol = [[RA1, dict(sec, ec=[], ec_key=False, ar=[["mail", None]], ar_key=True)],
+           [RA2, dict(sec, ec=[], ec_key=False, ar=[["sn", None]], ar_key=True)],
+           ["default", dict(sec, ec=[], ec_key=False, ar=[["title", None]], ar_key=True)]]
+    for a, b in ((RA1, RA2), (RA1, None), (None, RA2)):
+        for c in hist(pol, [sp(ra=a)], [sp(ra=b)], ops, ident):
+            yield c
+    # subject-id requirement added / removed (failing on missing in effect: the user holds pairwise-id only)
+    strict = [["default", dict(sec, ec=[], ec_key=False, fomr=True)]]
+    for a, b in ((None, "pairwise-id"), ("pairwise-id", None), (None, "subject-id"), ("any", None)):
+        for c in hist(strict, [sp(ras=narrow, subj=a)], [sp(ras=narrow, subj=b)], ops, ident):
+            yield c
+    # requester removed (only Policy-level entry points can be asked then) / another requester added
+    for c in hist(nofail, [sp(ras=narrow), sp(SP2, ras=wide)], [sp(SP2, ras=wide)], ("restrict", "apply_policy"), ident):
+        yield c
+    for c in hist(nofail, [sp(ras=narrow)], [sp(ras=narrow), sp(SP2, ras=wide)], ops, ident, who=SP1):
+        yield c
+    for op in ("authn_response", "attribute_response"):
+        st = {"op": op, "sp": SP2, "identity": ident}
+        if op == "authn_response":
+            st["best_effort"] = None
+        yield {"op": "sequence", "policy": nofail, "sps": [sp(ras=narrow)], "custom": {},
+               "steps": [dict(st, sp=SP1), {"op": "reload", "sps": [sp(ras=narrow), sp(SP2, ras=wide)]}, st]}
+
+
+def mutate_sp(rng, sp, identity, prefer):
+    """one release-relevant change of a requester's metadata"""
+    sp = copy.deepcopy(sp)
+    pool = all_categories() + CC
+    c = rng.randrange(8)
+    if c == 0:
+        sp["cats"] = []
+    elif c == 1:
+        sp["cats"] = sp["cats"][:-1] if sp["cats"] else rng.sample(pool, 1)
+    elif c == 2:
+        sp["cats"] = list(sp["cats"]) + rng.sample(pool, rng.choice([1, 2]))
+    elif c == 3:
+        sp["ras"] = sp["ras"][: len(sp["ras"]) // 2]
+    elif c == 4:
+        sp["ras"] = gen_ras(rng, identity, prefer) or _req_ras([k for k, _ in identity if k][:1])
+    elif c == 5:
+        for ra in sp["ras"]:
+            if rng.random() < 0.6:
+                ra["required"] = not ra["required"]
+        if not sp["ras"]:
+            sp["ras"] = _req_ras([k for k, _ in identity if k][:2])
+    elif c == 6:
+        sp["ra"] = rng.choice([x for x in (None, RA1, RA2) if x != sp["ra"]])
+    else:
+        sp["subj"] = rng.choice([x for x in (None, "any", "pairwise-id", "subject-id") if x != sp["subj"]])
+    return sp
+
+
+def gen_histories(rng, n_scen):
+    """random histories: 1-2 reloads between 2-4 issues on one Server; mostly well-formed requirements"""
+    for _ in range(n_scen):
+        prefer = category_attrs(rng)
+        identity = gen_identity(rng, prefer)
+        while len(identity) < 3:
+            identity = gen_identity(rng, prefer)
+        use_custom = rng.random() < 0.3
+        sps = []
+        for k in range(rng.choice([1, 2, 2])):
+            sp = gen_sp(rng, [SP1, SP2][k], identity, prefer)
+            have = [k_ for k_, _ in identity if k_]
+            picks = rng.sample(have + prefer, min(len(have + prefer), rng.choice([1, 2, 3])))
+            base = [next((l for l in LOCALS if l.lower() == a.lower()), a) for a in picks]
+            if rng.random() < 0.75:
+                sp["ras"] = [dict(r, required=rng.random() < 0.7) for r in _req_ras(base)]
+            sps.append(sp)
+        policy = gen_policy(rng, identity, sps, use_custom) or []
+        policy = [[w, s_] for w, s_ in policy if w not in ("default", RA1, RA2)]
+        mods = rng.sample(["swamid", "edugain", "refeds", "incommon"], rng.choice([1, 1, 2]))
+        if use_custom and rng.random() < 0.5:
+            mods.append(CUSTOM)
+        dsec = {"ar": None, "ar_key": False, "fomr": rng.choice([None, False, False]), "ec": mods if rng.random() < 0.6 else [],
+                "ec_key": True, "lifetime": True, "nonempty": True}
+        policy.append(["default", dsec])
+        for ra in (RA1, RA2):
+            if rng.random() < 0.45:
+                policy.append([ra, gen_section(rng, identity, use_custom)])
+        custom = {CUSTOM: gen_custom(rng)} if use_custom else {}
+        cur = sps
+        steps = []
+
+        def issue(cur_sps, allow_removed=None):
+            ids = [x["entity_id"] for x in cur_sps]
+            op = rng.choice(["authn_response", "authn_response", "attribute_response", "attribute_response",
+                             "restrict", "apply_policy", "setup_assertion"])
+            who = rng.choice(ids)
+            if allow_removed and rng.random() < 0.5:
+                who, op = allow_removed, rng.choice(["restrict", "apply_policy"])
+            st = {"op": op, "sp": who, "identity": identity if rng.random() < 0.8 else gen_identity(rng, prefer)}
+            if op == "authn_response":
+                st["best_effort"] = rng.choice([None, None, True])
+            if op == "setup_assertion":
+                st["best_effort"] = rng.choice([False, True])
+            return st
+
+        steps.append(issue(cur))
+        for _r in range(rng.choice([1, 1, 2])):
+            new = [mutate_sp(rng, sp, identity, prefer) if rng.random() < 0.8 else copy.deepcopy(sp) for sp in cur]
+            removed = None
+            c = rng.random()
+            if c < 0.12 and len(new) > 1:
+                removed = new.pop(rng.randrange(len(new)))["entity_id"]
+            elif c < 0.3 and not any(x["entity_id"] == SP3 for x in new):
+                new.append(gen_sp(rng, SP3, identity, prefer))
+            steps.append({"op": "reload", "sps": new})
+            cur = new
+            # the requester asked before the reload is asked again (its metadata changed), sometimes another one too
+            prev = steps[-2] if steps[-2]["op"] != "reload" else steps[0]
+            if any(x["entity_id"] == prev["sp"] for x in cur):
+                steps.append(dict(copy.deepcopy(prev)))
+            elif removed:
+                steps.append(dict(copy.deepcopy(prev), op=rng.choice(["restrict", "apply_policy"])))
+                steps[-1].pop("best_effort", None)
+            if rng.random() < 0.4:
+                steps.append(issue(cur, removed))
+        yield {"op": "sequence", "policy": policy, "sps": sps, "custom": custom, "steps": steps}
+
+
 def gen_cases(rng, tier):
     for c in sequence_sweep_cases():
         yield c
-    for c in gen_sequences(rng, 130 if tier == "quick" else 900):
+    for c in history_sweep_cases():
         yield c
-    n_scen = 560 if tier == "quick" else 2800
+    for c in gen_histories(rng, 120 if tier == "quick" else 900):
+        yield c
+    for c in gen_sequences(rng, 110 if tier == "quick" else 900):
+        yield c
+    n_scen = 500 if tier == "quick" else 2800
     per = 7 if tier == "quick" else 9
     for c in table_sweep_cases():
         yield c
@@ -801,10 +1008,24 @@ def _read_setup_result(res):
 STEP_FIELDS = ("op", "sp", "identity", "req", "opt", "best_effort", "has_mds")
 
 
+def governing(case, i):
+    """index of the reload step whose metadata is in force at step i (None = the metadata the Server was built with)"""
+    g = None
+    for j in range(i):
+        if case["steps"][j]["op"] == "reload":
+            g = j
+    return g
+
+
 def step_case(case, i):
-    """the single-step case the i-th step of a sequence amounts to (step fields override shared ones)"""
+    """the single-step case the i-th step of a sequence amounts to: step fields override shared ones, the
+    requester metadata is the one in force at that step (last `reload` before it)"""
     c = {k: v for k, v in case.items() if k != "steps"}
-    c.update(case["steps"][i])
+    g = governing(case, i)
+    if g is not None:
+        c["sps"] = case["steps"][g]["sps"]
+    st = case["steps"][i]
+    c.update({k: v for k, v in st.items() if not (st["op"] == "reload" and k == "sps")})
     c.setdefault("has_mds", True)
     return c
 
@@ -831,7 +1052,15 @@ def run_impl(case):
         # every step; nothing is shared with other cases, so the sequence is its own replay
         idp, pconf = _build_idp(case)
         pols = {"mds": idp.config.getattr("policy", "idp"), "nomds": Policy(copy.deepcopy(pconf), None)}
-        return {"steps": [_run_step(step_case(case, i), idp, pols) for i in range(len(case["steps"]))]}
+        outs = []
+        for i, st in enumerate(case["steps"]):
+            if st["op"] == "reload":
+                # Server.reload_metadata with the requester metadata changed; what follows is judged against it
+                ok = idp.reload_metadata({"inline": [S.metadata_xml([_sp_entity(sp) for sp in st["sps"]])]})
+                outs.append({"r": "reloaded" if ok else "reload_failed", "unchanged": True, "env": {}})
+            else:
+                outs.append(_run_step(step_case(case, i), idp, pols))
+        return {"steps": outs}
     idp = _idp(case)
     # single-step cases are self-contained: fresh Policy objects, also inside the cached Server
     pconf = _state["pconf"]
@@ -937,8 +1166,15 @@ def compare(case, impl, model):
         return False
     if case["op"] == "sequence":
         si, sm = impl.get("steps") or [], model.get("steps") or []
-        return len(si) == len(sm) == len(case["steps"]) and all(
-            compare(step_case(case, i), si[i], sm[i]) for i in range(len(si)))
+        if not (len(si) == len(sm) == len(case["steps"])):
+            return False
+        for i, st in enumerate(case["steps"]):
+            if st["op"] == "reload":
+                if si[i].get("r") != ((sm[i] or {}).get("out") or {}).get("r"):
+                    return False
+            elif not compare(step_case(case, i), si[i], sm[i]):
+                return False
+        return True
     m = dict(model.get("out") or {})
     m["unchanged"] = model.get("unchanged")
     if "self" in model:
@@ -962,7 +1198,7 @@ def finding_key(case, impl, lean):
         keys = set()
         for i, (si, sl) in enumerate(zip(impl.get("steps") or [], lean.get("steps") or [])):
             if sl.get("spec_impl") is False:
-                keys.add(finding_key(step_case(case, i), si, sl))
+                keys.add(None if case["steps"][i]["op"] == "reload" else finding_key(step_case(case, i), si, sl))
         return keys.pop() if len(keys) == 1 else None
     if not compare(case, impl, lean.get("model")):
         return None
@@ -983,15 +1219,37 @@ def _shrink_sequence(case):
             c = copy.deepcopy(case)
             del c["steps"][i]
             yield c
-    used = {st["sp"] for st in steps}
-    shared = ("policy", "sps", "custom")
     for i in range(len(steps)):
+        if steps[i]["op"] == "reload":
+            # fewer differences to the metadata in force before: take entries back one at a time
+            prev = step_case(case, i)["sps"]
+            if steps[i]["sps"] != prev:
+                by = {sp["entity_id"]: sp for sp in prev}
+                for j, sp in enumerate(steps[i]["sps"]):
+                    old = by.get(sp["entity_id"])
+                    if old is None:
+                        c = copy.deepcopy(case)
+                        del c["steps"][i]["sps"][j]
+                        yield c
+                        continue
+                    for fld in ("cats", "ra", "subj", "ras", "split"):
+                        if sp.get(fld) != old.get(fld):
+                            c = copy.deepcopy(case)
+                            c["steps"][i]["sps"][j][fld] = copy.deepcopy(old.get(fld))
+                            yield c
+            continue
+        g = governing(case, i)
+        same = [k for k in range(len(steps)) if steps[k]["op"] != "reload" and governing(case, k) == g]
+        used = {steps[k]["sp"] for k in same}
         for cand in shrink(step_case(case, i)):
             if not used <= ({sp["entity_id"] for sp in cand["sps"]} | {SPX}):
                 continue
             c = copy.deepcopy(case)
-            for k in shared:
-                c[k] = cand[k]
+            c["policy"], c["custom"] = cand["policy"], cand["custom"]
+            if g is None:
+                c["sps"] = cand["sps"]
+            else:
+                c["steps"][g]["sps"] = cand["sps"]
             c["steps"][i] = {k: cand[k] for k in STEP_FIELDS if k in case["steps"][i]}
             yield c
 
@@ -1073,6 +1331,19 @@ def shrink(case):
 def neighbours(case, rng):
     """directed search around a disagreement: the same scenario through every entry point"""
     if case["op"] == "sequence":
+        if any(st["op"] == "reload" for st in case["steps"]):
+            # a history: every prefix, and the history with one non-reload step left out
+            n = len(case["steps"])
+            for k in range(1, n):
+                c = copy.deepcopy(case)
+                c["steps"] = case["steps"][:k]
+                yield c
+            for k in range(n):
+                if case["steps"][k]["op"] != "reload":
+                    c = copy.deepcopy(case)
+                    del c["steps"][k]
+                    yield c
+            return
         # every step alone, every pair in both orders
         n = len(case["steps"])
         for i in range(n):
